@@ -18,7 +18,7 @@ def main(jp, op):
     except BaseException as e:  # noqa  (same classification as core.lifetime: did library code raise it?)
         import traceback
         from sim import core
-        emit({"HARNESS": traceback.format_exc()[-3000:], "lib": core.lib_raised(e.__traceback__), "exc": type(e).__name__})
+        emit({"HARNESS": traceback.format_exc()[-3000:], "lib": core.lib_raised(e.__traceback__, type(e)), "exc": type(e).__name__})
     out.close()
 
 
